@@ -117,11 +117,19 @@ Valid(cs) == (\A f \in Fields : FieldValid(f, cs.fl[f])) /\ StructValid(cs.st)
 Defaults ==
   [ i8 |-> "int8:-3", u16 |-> "uint16:7", i64 |-> "int64:-9223372036854775808", u64 |-> "uint64:18446744073709551615",
     dec |-> "dec:2.5", str |-> "str:abc", bo |-> "bool:true", en |-> "enum:GREEN", idr |-> "enum:SQUARE",
-    un |-> "str:xyz", un2 |-> "enum:BLUE", bin |-> "bin:00ff10" ]
+    un |-> "str:xyz", un2 |-> "enum:BLUE", bin |-> "bin:00ff10",
+    \* union (binary length 3 | string) with default "YWI=": two octets, so the string member
+    ub |-> "str:YWI=" ]
+  \* defaults below nodes whose generated names collide (rate-limit / rate_limit, peer-group / peer_group);
+  \* the containers and one entry "x" of each list are always present
+  @@ ("rate-limit/burst" :> "uint16:200") @@ ("rate_limit/burst" :> "uint16:300")
+  @@ ("peer-group/=str:x/ttl" :> "uint8:32") @@ ("peer_group/=str:x/ttl" :> "uint8:64")
 
 Other ==
   [ i8 |-> "int8:4", u16 |-> "uint16:50", i64 |-> "int64:0", u64 |-> "uint64:0", dec |-> "dec:0", str |-> "str:zz", bo |-> "bool:false",
-    en |-> "enum:RED", idr |-> "enum:TRI", un |-> "int32:5", un2 |-> "uint32:0", bin |-> "bin:01" ]
+    en |-> "enum:RED", idr |-> "enum:TRI", un |-> "int32:5", un2 |-> "uint32:0", bin |-> "bin:01", ub |-> "bin:010203" ]
+  @@ ("rate-limit/burst" :> "uint16:1") @@ ("rate_limit/burst" :> "uint16:2")
+  @@ ("peer-group/=str:x/ttl" :> "uint8:1") @@ ("peer_group/=str:x/ttl" :> "uint8:2")
 
 DLeaves == DOMAIN Defaults
 
